@@ -12,6 +12,7 @@
     element of the box they are made from), the style facts float≠none / position absolute|fixed /
     position running() / white-space ∈ {normal,nowrap,pre-line} / caption-side / row-group display,
     and the flags IsTableWrapper, IsHeader, IsFooter, IsFlexItem, IsGridItem, Colspan, Rowspan, GridX;
+  * a running box (`position: running()`) is returned unchanged by every pass and never entered;
   * Go panics are `Except.error`; loops that are not structural carry explicit fuel
     (`Except.error "fuel"` when it runs out; theorems in WR/Props/C09.lean show it does not);
   * not modelled (no influence on the tree shape): Leading/TrailingCollapsibleSpace bookkeeping of
@@ -473,7 +474,7 @@ mutual
         else do
           let blk ← blockInInline c
           pure ([], some (blk, [idx + 1]))
-      else if c.ty == .inline then do
+      else if c.ty == .inline && !c.a.running then do   -- running boxes are opaque, as in the other passes
         let (c', r) ← innerBII c st
         match r with
         | some (blk, rs) => pure ([c'], some (blk, idx :: rs))
